@@ -139,7 +139,50 @@ type c18Harness struct {
 	idxWith    *indexes.SigToCid_Reader
 	idxWithout *indexes.SigToCid_Reader
 	sig        solana.Signature
-	budget     time.Duration
+	budget     time.Duration // base budget of one attempt (x10 on the two retries)
+	// bookkeeping that keeps a systematic hang cheap: every wait is bounded; a call that does not return is re-run
+	// alone twice with 10x budget before it is reported; a class (kind, limit, n) is abandoned after 3 reports;
+	// after 3 reports overall only the first (short) attempt is made and a class that times out is abandoned.
+	confirmed  int
+	classHangs map[string]int
+	suspect    map[string]bool
+}
+
+const c18MaxConfirmed = 3
+
+func (h *c18Harness) skipClass(cls string) bool {
+	if h.classHangs[cls] >= 3 || h.suspect[cls] {
+		h.s.Count("skipped-after-no-return")
+		return true
+	}
+	return false
+}
+
+// attempts runs f with scale 1, then (unless too many hangs were already reported) twice with scale 10.
+// It returns false when no attempt completed; `reported` says whether that verdict is confirmed (to be reported).
+func (h *c18Harness) attempts(cls string, f func(scale int) bool) (done bool, reported bool) {
+	n := 3
+	if h.confirmed >= c18MaxConfirmed {
+		n = 1
+	}
+	for a := 0; a < n; a++ {
+		scale := 1
+		if a > 0 {
+			scale = 10
+			h.s.Count("retry-alone-10x")
+		}
+		if f(scale) {
+			return true, false
+		}
+	}
+	if n == 1 {
+		h.suspect[cls] = true
+		h.s.Count("timeout-unconfirmed-class-abandoned")
+		return false, false
+	}
+	h.confirmed++
+	h.classHangs[cls]++
+	return false, true
 }
 
 func (h *c18Harness) winners(limit int, oks []bool) []int {
@@ -226,7 +269,17 @@ func (h *c18Harness) runFS(limit int, outs []c18Out, order []int, ctxKind int, s
 	var got *ret
 	startedSet := map[int]bool{}
 	released := map[int]bool{}
-	satWait := 3 * time.Second * time.Duration(scale)
+	satWait := h.budget / 2 * time.Duration(scale)
+	deadline := time.Now().Add(h.budget * time.Duration(scale)) // of the whole attempt
+	remaining := func(d time.Duration) time.Duration {
+		if r := time.Until(deadline); r < d {
+			if r < 0 {
+				return 0
+			}
+			return r
+		}
+		return d
+	}
 	releaseRest := func() {
 		for i := 0; i < n; i++ {
 			if !released[i] {
@@ -240,7 +293,7 @@ func (h *c18Harness) runFS(limit int, outs []c18Out, order []int, ctxKind int, s
 		if limit > 0 && len(run.eff)+limit < n {
 			want = len(run.eff) + limit
 		}
-		timer := time.NewTimer(satWait)
+		timer := time.NewTimer(remaining(satWait))
 	sat:
 		for len(startedSet) < want {
 			select {
@@ -270,7 +323,7 @@ func (h *c18Harness) runFS(limit int, outs []c18Out, order []int, ctxKind int, s
 			}
 		}
 		if len(startedSet) < want {
-			if pick < 0 {
+			if pick < 0 || !time.Now().Before(deadline) {
 				// nothing is running, nothing can be released, and FirstSuccess does not start the next job
 				run.status = "stall"
 				releaseRest()
@@ -287,7 +340,7 @@ func (h *c18Harness) runFS(limit int, outs []c18Out, order []int, ctxKind int, s
 				got = &r
 				resCh = nil
 				run.early = true
-			case <-time.After(satWait):
+			case <-time.After(remaining(satWait)):
 				run.degraded = true
 			}
 		}
@@ -296,8 +349,9 @@ func (h *c18Harness) runFS(limit int, outs []c18Out, order []int, ctxKind int, s
 		select {
 		case r := <-resCh:
 			got = &r
-		case <-time.After(h.budget * time.Duration(scale)):
+		case <-time.After(remaining(h.budget * time.Duration(scale))):
 			run.status = "no-return"
+			releaseRest()
 			return run
 		}
 	}
@@ -337,17 +391,29 @@ func (h *c18Harness) execFS(line string, w []string) {
 	for _, c := range line {
 		ctxKind ^= int(c) & 1
 	}
+	cls := fmt.Sprintf("fs:%d:%d", limit, n)
+	if h.skipClass(cls) {
+		return
+	}
 	var run c18Run
-	for attempt := 0; attempt < 3; attempt++ {
-		scale := 1
-		if attempt > 0 {
-			scale = 10
-			h.s.Count("fs-retry")
-		}
+	done, reported := h.attempts(cls, func(scale int) bool {
 		run = h.runFS(limit, outs, order, ctxKind, scale)
-		if run.status == "ok" && !run.degraded {
-			break
+		return run.status == "ok" && !run.degraded
+	})
+	if !done && run.status == "ok" {
+		done = true // returned, but only with the degraded protocol: answer is recorded with the DEGRADED mark
+		if reported {
+			h.confirmed--
+			h.classHangs[cls]--
 		}
+	}
+	if !done {
+		if reported {
+			h.s.Violation(fmt.Sprintf("search did not terminate: FirstSuccess did not return (%s) for `%s` (3 attempts alone, the last two with 10x budget)", run.status, line),
+				fmt.Sprintf("C18:no-return:limit=%d:n=%d", limit, n), h.s.Replay([]string{line}))
+			h.s.Op(line, "no-return", false)
+		}
+		return
 	}
 	// --- what the property allows (independent of the model) ---
 	var okVals []int
@@ -366,9 +432,7 @@ func (h *c18Harness) execFS(line string, w []string) {
 	var res string
 	switch {
 	case run.status != "ok":
-		res = run.status
-		h.s.Violation(fmt.Sprintf("FirstSuccess did not return (%s) for `%s` (3 attempts, last with 10x budget)", run.status, line),
-			"C18:no-return:"+key, h.s.Replay([]string{line}))
+		res = run.status // not reached: handled above
 	case run.isOk:
 		res = "ok:" + strconv.Itoa(run.val)
 		member := false
@@ -552,7 +616,7 @@ func c18ErrToken(e error) string {
 	return "other(" + m + ")"
 }
 
-func (h *c18Harness) findOnce(limit int, eps []c18Ep) string {
+func (h *c18Harness) findOnce(limit int, eps []c18Ep, scale int) string {
 	multi := NewMultiEpoch(&Options{EpochSearchConcurrency: limit})
 	for _, e := range eps {
 		ep := &Epoch{epoch: e.num, sigToCidIndex: h.idxWithout}
@@ -586,7 +650,7 @@ func (h *c18Harness) findOnce(limit int, eps []c18Ep) string {
 	var r ret
 	select {
 	case r = <-ch:
-	case <-time.After(h.budget * 10):
+	case <-time.After(h.budget * time.Duration(scale)):
 		return "no-return"
 	}
 	switch {
@@ -658,11 +722,26 @@ func (h *c18Harness) execFind(line string, w []string) {
 		}
 		sort.Strings(allowed)
 	}
+	cls := fmt.Sprintf("find:%d:%d", limit, n)
+	if h.skipClass(cls) {
+		return
+	}
 	reps := 3
 	answers := map[string]bool{}
 	var last string
 	for i := 0; i < reps; i++ {
-		last = zz.Guard(func() string { return h.findOnce(limit, eps) })
+		done, reported := h.attempts(cls, func(scale int) bool {
+			last = zz.Guard(func() string { return h.findOnce(limit, eps, scale) })
+			return last != "no-return"
+		})
+		if !done {
+			if reported {
+				h.s.Violation(fmt.Sprintf("search did not terminate: `%s`: findEpochNumberFromSignature did not return (3 attempts alone, the last two with 10x budget)", line),
+					fmt.Sprintf("C18:no-return:find:limit=%d:n=%d", limit, n), h.s.Replay([]string{line}))
+				h.s.Op(line, "no-return", false)
+			}
+			return
+		}
 		answers[last] = true
 		ok := false
 		for _, a := range allowed {
@@ -671,14 +750,12 @@ func (h *c18Harness) execFind(line string, w []string) {
 			}
 		}
 		key := fmt.Sprintf("limit=%d:n=%d", limit, n)
-		if last == "no-return" {
-			h.s.Violation(fmt.Sprintf("`%s`: findEpochNumberFromSignature did not return", line), "C18:find-no-return:"+key, h.s.Replay([]string{line}))
-		} else if n != 1 && !ok {
+		if n != 1 && !ok {
 			// property-level: a hit whenever one exists; all not-found => not found; otherwise the error list
 			h.s.Violation(fmt.Sprintf("`%s`: answered %s, allowed %v", line, last, allowed), "C18:find-not-allowed:"+key, h.s.Replay([]string{line}))
 		}
 	}
-	cls := last
+	ans := last
 	if len(allowed) > 1 {
 		all := true
 		for a := range answers {
@@ -687,21 +764,21 @@ func (h *c18Harness) execFind(line string, w []string) {
 			}
 		}
 		if all {
-			cls = "found:*"
+			ans = "found:*"
 		}
 		h.s.Count("find-multiple-hits")
 	} else if len(answers) > 1 {
-		cls = "UNSTABLE"
+		ans = "UNSTABLE"
 		for a := range answers {
-			cls += " " + a
+			ans += " " + a
 		}
 	}
-	h.s.Op(line, "class="+cls+" allowed="+strings.Join(allowed, "|"), true)
+	h.s.Op(line, "class="+ans+" allowed="+strings.Join(allowed, "|"), true)
 	h.s.Count(fmt.Sprintf("find-n%d", n))
 	switch {
-	case strings.HasPrefix(cls, "found"):
+	case strings.HasPrefix(ans, "found"):
 		h.s.Count("find-class-found")
-	case cls == "notfound":
+	case ans == "notfound":
 		h.s.Count("find-class-notfound")
 	default:
 		h.s.Count("find-class-internal")
@@ -868,7 +945,8 @@ func c18Generate(s *zz.Session) []string {
 func TestVerifC18(t *testing.T) {
 	s := zz.NewSession()
 	defer s.Close()
-	h := &c18Harness{s: s, t: t, winCache: map[string][]int{}, budget: 10 * time.Second}
+	h := &c18Harness{s: s, t: t, winCache: map[string][]int{}, budget: 2 * time.Second,
+		classHangs: map[string]int{}, suspect: map[string]bool{}}
 	h.buildIndexes()
 	baseline := runtime.NumGoroutine()
 	var ops []string
@@ -899,6 +977,9 @@ func TestVerifC18(t *testing.T) {
 	}
 	// statistic only: every goroutine of every call is gone (jobs done, closer closed the channel)
 	deadline := time.Now().Add(10 * time.Second)
+	if h.confirmed > 0 || len(h.suspect) > 0 {
+		deadline = time.Now() // stuck calls were abandoned: their goroutines never finish
+	}
 	for runtime.NumGoroutine() > baseline && time.Now().Before(deadline) {
 		time.Sleep(5 * time.Millisecond)
 	}
